@@ -367,6 +367,11 @@ Definition mat_close (rel flo : Q) (A B : list (list Q)) : bool :=
                      (combine (seq 0 (length ra)) (combine ra rb)))
           (combine (seq 0 (length A)) (combine A B)).
 
+(* GN hands the rectangular matrix W J to its solver: no entry of it is a 'diagonal of a normal matrix', the floor applies
+   to every entry (a structurally zero entry of W J comes out of the floating product as a cancellation residue) *)
+Definition mat_close_rect (rel flo : Q) (A B : list (list Q)) : bool :=
+  Nat.eqb (length A) (length B) && forallb (fun r => vec_close rel flo (fst r) (snd r)) (combine A B).
+
 Definition cid_eqb (a b : cid) : bool :=
   match a, b with
   | CTrivial, CTrivial => true
@@ -437,7 +442,7 @@ Definition gn_check (c : opt_case) (impl : option (list (list Q) * list Q * list
       match gn_step (corr_table (oc_corr c)) (exp_table (oc_exp c)) (fun _ _ => Some D) (oc_problem c) with
       | None => 1
       | Some o =>
-          if negb (mat_close (fst (oc_tolA c)) (snd (oc_tolA c)) (tA o) A) then 2
+          if negb (mat_close_rect (fst (oc_tolA c)) (snd (oc_tolA c)) (tA o) A) then 2
           else if negb (vec_close (fst (oc_tolA c)) (snd (oc_tolA c)) (tb o) b) then 3
           else if negb (params_close (fst (oc_tolP c)) (snd (oc_tolP c)) (tP o) P) then 4
           else 0
